@@ -79,6 +79,7 @@ func runC12(c *Ctx) {
 	c12SyncWatermark(c, "C12.V1")
 	// shared
 	runC10O3(c)
+	runC22(c)
 }
 
 // c12SyncWatermark: in provider.localSync every value stored into
